@@ -19,10 +19,7 @@ impl Compiler {
             let global_idx = if let Some(&idx) = self.global_indices.get(name) {
                 idx
             } else {
-                let idx = self.next_global_index;
-                self.global_indices.insert(name.to_string(), idx);
-                self.next_global_index += 1;
-                idx
+                self.alloc_global_index(name)?
             };
 
             let temp_reg = self.alloc_register()?;
@@ -57,7 +54,7 @@ impl Compiler {
             self.compile_typed_expr(initializer, reg)?;
 
             self.globals.insert(name.to_string(), mutable);
-            let idx = self.get_or_create_global_index_raw(name);
+            let idx = self.get_or_create_global_index_raw(name)?;
             self.accessed_globals.insert(name.to_string());
 
             self.emit_b(OpCode::SetGlobalIdx, reg, idx as i16, span);
